@@ -100,7 +100,7 @@ type Cfg struct {
 	TagPage         int
 	CatalogPage     int
 	ChunkMin        int64
-	EnforceChunkMin bool // refuse further data once a non-final chunk below ChunkMin was sent
+	EnforceChunkMin bool   // refuse further data once a non-final chunk below ChunkMin was sent
 	AckPlan         []int  // i-th PATCH of a session: bytes of the chunk to accept (-1 / beyond = all)
 	AckStyle        string // "202" (default) or "416"
 	Early201        bool   // answer the PATCH that completes nothing special with 201 instead of 202
@@ -166,7 +166,9 @@ func (w *World) Close() {
 }
 
 // Addr is host:port of the listener.
-func (h *Host) Addr() string { return strings.TrimPrefix(strings.TrimPrefix(h.Srv.URL, "http://"), "https://") }
+func (h *Host) Addr() string {
+	return strings.TrimPrefix(strings.TrimPrefix(h.Srv.URL, "http://"), "https://")
+}
 
 // Lock / Unlock give the harness consistent access to raw state.
 func (w *World) Lock()   { w.mu.Lock() }
@@ -413,7 +415,7 @@ func writeResp(w http.ResponseWriter, resp *response) {
 		if f, ok := w.(http.Flusher); ok {
 			f.Flush()
 		}
-		DropConn(w)
+		CloseConn(w) // truncated body: orderly close, the client reads an unexpected EOF
 		return
 	}
 	w.WriteHeader(resp.status)
@@ -431,12 +433,17 @@ func writeResp(w http.ResponseWriter, resp *response) {
 	}
 }
 
-// DropConn closes the underlying connection abruptly.
-func DropConn(w http.ResponseWriter) {
+// DropConn closes the underlying connection abruptly (TCP reset).
+func DropConn(w http.ResponseWriter) { dropConn(w, true) }
+
+// CloseConn closes the underlying connection in an orderly way (the peer sees an early EOF).
+func CloseConn(w http.ResponseWriter) { dropConn(w, false) }
+
+func dropConn(w http.ResponseWriter, reset bool) {
 	if hj, ok := w.(http.Hijacker); ok {
 		c, _, err := hj.Hijack()
 		if err == nil {
-			if tc, ok := c.(*net.TCPConn); ok {
+			if tc, ok := c.(*net.TCPConn); ok && reset {
 				_ = tc.SetLinger(0)
 			}
 			_ = c.Close()
